@@ -1,6 +1,6 @@
 (** Pins for C01: the statements written out, so that no theorem is weakened quietly. *)
 From TucModel Require Import Base.Bytes Base.ListX Model.Bounds Model.BoundsParse Model.Scan Model.Opt
-     Model.CutBytes Model.CutStr Spec.Fields Proofs.C06 Proofs.ScanSplit Proofs.Plain Properties.C01.
+     Model.CutBytes Model.CutStr Spec.Fields Proofs.C06 Proofs.ScanSplit Proofs.Plain Proofs.C01More Properties.C01.
 
 
 Check C01_fields_locations_are_fields :
@@ -32,3 +32,55 @@ Check C01_replacement_rewrites_exactly_the_separators :
   forall (d : byte) (rep : bytes) (fs : list bytes), fs <> [] -> Forall (dfree d) fs ->
     replace_matches (intercalate [d] fs) (lit_matches [d] (intercalate [d] fs)) rep = intercalate rep fs.
 Print Assumptions C01_replacement_rewrites_exactly_the_separators.
+
+Check C01_fields_are_unique :
+  forall d : bytes, d <> [] -> forall (ps : list bytes) (line : bytes), is_split d line ps -> split d line = ps.
+Print Assumptions C01_fields_are_unique.
+
+Check C01_greedy_fields :
+  forall d line : bytes, d <> [] -> line <> [] ->
+    pieces line (fields_of_matches (merge_adjacent (lit_matches d line)) line) = squeeze (split d line).
+Print Assumptions C01_greedy_fields.
+
+Check C01_compress_collapses_runs :
+  forall d line : bytes, d <> [] -> line <> [] ->
+    compress_delimiter d line = intercalate d (squeeze (split d line)).
+Print Assumptions C01_compress_collapses_runs.
+
+Check C01_compress_then_split :
+  forall d line : bytes, d <> [] -> line <> [] ->
+    split d (compress_delimiter d line) = squeeze (split d line).
+Print Assumptions C01_compress_then_split.
+
+Check C01_trim_left :
+  forall d l : bytes, d <> [] ->
+    exists k, l = copies d k ++ trim_left d l /\ strip_prefix d (trim_left d l) = None.
+Print Assumptions C01_trim_left.
+
+Check C01_trim_right :
+  forall d l : bytes, d <> [] ->
+    exists k, l = trim_right d l ++ copies d k /\ forall x, trim_right d l <> x ++ d.
+Print Assumptions C01_trim_right.
+
+Check C01_one_field_iff_no_delimiter :
+  forall d line : bytes, d <> [] -> (length (split d line) = 1 <-> ~ occurs_in d line).
+Print Assumptions C01_one_field_iff_no_delimiter.
+
+Check C01_general_path_stages :
+  forall (o : opt) (line0 : bytes),
+    o_regex o = None -> o_btype o = BFields -> o_json o = false ->
+    cut_str o line0
+    = Some (let line1 := match o_trim o with
+                         | None => line0
+                         | Some k => trim_lit k (o_delim o) line0
+                         end in
+            match line1 with
+            | [] => ROk (if o_only_delimited o then [] else [o_eol o])
+            | _ => finish_record o (fst (lit_stage o line1)) (snd (lit_stage o line1))
+            end).
+Print Assumptions C01_general_path_stages.
+
+Check C01_staged_fields_are_the_fields :
+  forall (o : opt) (line1 : bytes), o_delim o <> [] -> line1 <> [] ->
+    pieces (fst (lit_stage o line1)) (snd (lit_stage o line1)) = spec_fields o line1.
+Print Assumptions C01_staged_fields_are_the_fields.
